@@ -506,6 +506,596 @@ def unique_ids(ck, pool, tier):
                                      "verdict": o, "source": src}, tags=[])
 
 
+# --------------------------------------------------------------------------------------------
+# unique-id() drawn from many evaluation contexts of ONE compilation
+# --------------------------------------------------------------------------------------------
+
+class UidGen:
+    """One program = one compilation that calls unique-id() from many evaluation contexts, in random
+    order.  Every id drawn reaches the CSS at a place the collector recognises:
+        `u: <id> <id> …;`      declaration values (space separated)
+        `pn-<id>: 1;`          interpolation in a property name
+        `.s-<id>`              interpolation in a selector
+    The number of draws that reach the output is known statically (`program()` returns it): loops have
+    literal bounds and every callable a known yield per call."""
+
+    MAXY = 6            # a callable that yields more ids than this per call is not nested into another one
+
+    def __init__(self, rng):
+        self.rng = rng
+        self.k = 0
+        self.files = {}
+        self.kinds = {}
+
+    def fresh(self, p):
+        self.k += 1
+        return f"{p}{self.k}"
+
+    def hit(self, k):
+        self.kinds[k] = self.kinds.get(k, 0) + 1
+
+    @staticmethod
+    def scope():
+        return {"fns": [], "mix": [], "cmix": [], "ctx": "top"}
+
+    # ---- expressions: (text, ids in the printed value) -----------------------------------
+    def expr(self, sc):
+        r = self.rng
+        opts = ["direct", "direct", "interp-str", "lazy-if", "nth"]
+        if sc["fns"]:
+            opts += ["fn", "fn", "fn", "fn"]
+            if any(f.get("callable") for f in sc["fns"]):
+                opts += ["meta-call"]
+        c = r.choice(opts)
+        if c == "direct":
+            self.hit("expr:direct@" + sc["ctx"])
+            return "unique-id()", 1
+        if c == "interp-str":
+            self.hit("expr:interpolated-string@" + sc["ctx"])
+            return 'unquote("#{unique-id()}")', 1
+        if c == "lazy-if":
+            self.hit("expr:if()")
+            return f"if({r.choice(['true', 'false', '1 < 2'])}, unique-id(), unique-id())", 1
+        if c == "nth":
+            self.hit("expr:nth-of-list")
+            return f"nth(unique-id() unique-id() unique-id(), {r.randint(1, 3)})", 1
+        if c == "fn":
+            f = r.choice(sc["fns"])
+            self.hit("expr:call:" + f["kind"] + "@" + sc["ctx"])
+            return f["call"](), f["ids_of"]
+        f = r.choice([f for f in sc["fns"] if f.get("callable")])
+        self.hit("expr:call(get-function)@" + sc["ctx"])
+        return f"call(get-function('{f['callable']}'))", f["ids_of"]
+
+    # ---- statements inside a style rule / mixin body / @content block ---------------------
+    def body(self, sc, depth, n=None):
+        out, ids = [], 0
+        for _ in range(n or self.rng.randint(1, 3)):
+            t, k = self.stmt(sc, depth)
+            out.append(t)
+            ids += k
+        return " ".join(out), ids
+
+    def stmt(self, sc, depth):
+        r = self.rng
+        opts = ["decl", "decl", "decl2", "propname", "var"]
+        if sc["mix"]:
+            opts += ["include", "include", "include"]
+        if sc["cmix"]:
+            opts += ["content", "content", "content"]
+        if depth < 2:
+            opts += ["each", "for", "while", "if", "nested-sel", "nested-plain", "media", "at-root"]
+        c = r.choice(opts)
+        if c == "decl":
+            e, k = self.expr(sc)
+            return f"u: {e};", k
+        if c == "decl2":
+            e1, k1 = self.expr(sc)
+            e2, k2 = self.expr(sc)
+            self.hit("stmt:two-in-one-declaration")
+            return f"u: {e1} {e2};", k1 + k2
+        if c == "propname":
+            self.hit("stmt:interpolated-property-name@" + sc["ctx"])
+            return "pn-#{unique-id()}: 1;", 1
+        if c == "var":
+            v = self.fresh("v")
+            e, k = self.expr(sc)
+            self.hit("stmt:local-variable@" + sc["ctx"])
+            return f"${v}: {e}; u: ${v};", k
+        if c == "include":
+            m = r.choice(sc["mix"])
+            self.hit("stmt:include:" + m["kind"] + "@" + sc["ctx"])
+            return m["include"](), m["ids_of"]
+        if c == "content":
+            m = r.choice(sc["cmix"])
+            b, k = self.body(dict(sc, ctx="content"), depth + 1)
+            self.hit("stmt:include-with-content:" + m["kind"] + "@" + sc["ctx"])
+            if m["using"]:
+                x = self.fresh("x")
+                return f"@include {m['name']} using (${x}) {{ u: ${x}; {b} }}", m["own"] + m["mult"] * (1 + k)
+            return f"@include {m['name']} {{ {b} }}", m["own"] + m["mult"] * k
+        if c == "each":
+            n = r.randint(2, 4)
+            b, k = self.body(dict(sc, ctx="each"), depth + 1)
+            self.hit("stmt:@each@" + sc["ctx"])
+            return f"@each ${self.fresh('e')} in {' '.join('abcd'[:n])} {{ {b} }}", n * k
+        if c == "for":
+            n = r.randint(2, 4)
+            b, k = self.body(dict(sc, ctx="for"), depth + 1)
+            self.hit("stmt:@for@" + sc["ctx"])
+            return f"@for ${self.fresh('i')} from 1 through {n} {{ {b} }}", n * k
+        if c == "while":
+            n = r.randint(2, 3)
+            w = self.fresh("w")
+            b, k = self.body(dict(sc, ctx="while"), depth + 1)
+            self.hit("stmt:@while@" + sc["ctx"])
+            return f"${w}: 0; @while ${w} < {n} {{ {b} ${w}: ${w} + 1; }}", n * k
+        if c == "if":
+            b1, k1 = self.body(dict(sc, ctx="if"), depth + 1)
+            b2, k2 = self.body(dict(sc, ctx="if"), depth + 1)
+            t = r.random() < 0.5
+            self.hit("stmt:@if/@else")
+            return f"@if {'1 < 2' if t else '2 < 1'} {{ {b1} }} @else {{ {b2} }}", k1 if t else k2
+        if c == "nested-sel":
+            b, k = self.body(sc, depth + 1)
+            self.hit("stmt:interpolated-selector@" + sc["ctx"])
+            return f".s-#{{unique-id()}} {{ z: 1; {b} }}", 1 + k
+        if c == "nested-plain":
+            b, k = self.body(sc, depth + 1)
+            return f"& .{self.fresh('n')} {{ {b} }}", k
+        if c == "media":
+            b, k = self.body(sc, depth + 1)
+            self.hit("stmt:@media")
+            return f"@media screen {{ {b} }}", k
+        b, k = self.body(sc, depth + 1)
+        self.hit("stmt:@at-root")
+        return f"@at-root .s-#{{unique-id()}} {{ z: 1; {b} }}", 1 + k
+
+    # ---- declarations of callables --------------------------------------------------------
+    def decl(self, sc):
+        r = self.rng
+        small_f = [f for f in sc["fns"] if f["ids_of"] <= self.MAXY]
+        small_m = [m for m in sc["mix"] if m["ids_of"] <= self.MAXY]
+        small_c = [m for m in sc["cmix"] if m["mult"] <= 3 and m["own"] <= self.MAXY]
+        kinds = ["fn-1", "fn-1", "fn-loop", "fn-rec", "fn-if", "fn-var", "mix-1", "mix-var", "mix-default", "mix-loop",
+                 "mix-body", "mix-sel", "cmix-plain", "cmix-own", "cmix-using"]
+        if small_f:
+            kinds += ["fn-nest", "fn-nest", "mix-fn"]
+        if small_m:
+            kinds += ["mix-nest"]
+        if small_c:
+            kinds += ["cmix-nest"]
+        c = r.choice(kinds)
+        self.hit("decl:" + c)
+        if c.startswith("fn"):
+            f = self.fresh("uf")
+            arg = ""
+            if c == "fn-1":
+                txt, ids = f"@function {f}() {{ @return unique-id(); }}", 1
+            elif c == "fn-var":
+                txt, ids = f"@function {f}() {{ $r: unique-id(); $q: unique-id(); @return $q $r; }}", 2
+            elif c == "fn-loop":
+                ids = r.randint(2, 4)
+                arg = str(ids)
+                txt = f"@function {f}($k) {{ $r: (); @for $i from 1 through $k {{ $r: append($r, unique-id(), space); }} @return $r; }}"
+            elif c == "fn-rec":
+                ids = r.randint(1, 4)
+                arg = str(ids)
+                txt = f"@function {f}($d) {{ @if $d <= 1 {{ @return unique-id(); }} @return unique-id() {f}($d - 1); }}"
+            elif c == "fn-if":
+                txt, ids = f"@function {f}() {{ @if 1 < 2 {{ @return unique-id(); }} @else {{ @return unique-id() unique-id(); }} }}", 1
+            else:
+                g = r.choice(small_f)
+                txt, ids = f"@function {f}() {{ $a: {g['call']()}; @return unique-id() $a {g['call']()}; }}", 1 + 2 * g["ids_of"]
+            ent = {"kind": c, "ids_of": ids, "name": f, "call": (lambda name, arg: (lambda ns="": f"{ns}{name}({arg})"))(f, arg)}
+            if not arg:
+                ent["callable"] = f
+            sc["fns"].append(ent)
+            return txt
+        if c.startswith("mix"):
+            m = self.fresh("um")
+            arg = ""
+            if c == "mix-1":
+                txt, ids = f"@mixin {m} {{ u: unique-id(); }}", 1
+            elif c == "mix-var":
+                txt, ids = f"@mixin {m} {{ $name: unique-id(); u: $name; }}", 1
+            elif c == "mix-default":
+                txt, ids = f"@mixin {m}($a: unique-id(), $b: unique-id()) {{ u: $b $a; }}", 2
+            elif c == "mix-loop":
+                ids = r.randint(2, 4)
+                arg = f"({ids})"
+                txt = f"@mixin {m}($k) {{ @for $i from 1 through $k {{ u: unique-id(); }} }}"
+            elif c == "mix-body":
+                b, ids = self.body(dict(sc, ctx="mixin"), 1)
+                txt = f"@mixin {m} {{ {b} }}"
+            elif c == "mix-sel":
+                txt, ids = f"@mixin {m} {{ .s-#{{unique-id()}} {{ z: 1; u: unique-id(); pn-#{{unique-id()}}: 1; }} }}", 3
+            elif c == "mix-fn":
+                g = r.choice(small_f)
+                txt, ids = f"@mixin {m} {{ u: {g['call']()}; u: unique-id(); }}", g["ids_of"] + 1
+            else:
+                g = r.choice(small_m)
+                txt, ids = f"@mixin {m} {{ {g['include']()} u: unique-id(); {g['include']()} }}", 2 * g["ids_of"] + 1
+            sc["mix"].append({"kind": c, "ids_of": ids, "name": m,
+                              "include": (lambda name, arg: (lambda ns="": f"@include {ns}{name}{arg};"))(m, arg)})
+            return txt
+        m = self.fresh("uc")
+        if c == "cmix-plain":
+            mult = r.randint(2, 3)
+            txt, own, using = f"@mixin {m} {{ {' '.join(['@content;'] * mult)} }}", 0, False
+        elif c == "cmix-own":
+            mult, own, using = 2, 2, False
+            txt = f"@mixin {m} {{ u: unique-id(); @content; u: unique-id(); @content; }}"
+        elif c == "cmix-using":
+            mult, own, using = 2, 0, True
+            txt = f"@mixin {m} {{ @content(unique-id()); @content(unique-id()); }}"
+        else:
+            g = r.choice(small_c)
+            if g["using"]:
+                mult, own, using = 2 * g["mult"], g["own"] + g["mult"], False
+                txt = f"@mixin {m} {{ @include {g['name']} using ($y) {{ u: $y; @content; @content; }} }}"
+            else:
+                mult, own, using = g["mult"], g["own"] + g["mult"], False
+                txt = f"@mixin {m} {{ @include {g['name']} {{ @content; u: unique-id(); }} }}"
+        sc["cmix"].append({"kind": c, "name": m, "mult": mult, "own": own, "using": using})
+        return txt
+
+    # ---- a file: top-level items in random order ------------------------------------------
+    def items(self, sc, n_items, tag, nested_files=True):
+        r = self.rng
+        out, ids, pending = [], 0, []
+        for _ in range(n_items):
+            opts = ["decl", "decl", "rule", "rule", "global", "global", "sel-rule", "top-each"]
+            if nested_files:
+                opts += ["import", "load-css"]
+            c = r.choice(opts)
+            if c == "decl":
+                out.append(self.decl(sc))
+            elif c == "rule":
+                b, k = self.body(dict(sc, ctx="rule"), 0, r.randint(1, 4))
+                out.append(f"{self.fresh(tag + 'r')} {{ {b} }}")
+                ids += k
+            elif c == "global":
+                g = self.fresh("g")
+                e, k = self.expr(dict(sc, ctx="top-level-variable"))
+                out.append(f"${g}: {e};")
+                pending.append(g)
+                ids += k
+                self.hit("item:top-level-variable")
+            elif c == "sel-rule":
+                b, k = self.body(dict(sc, ctx="rule"), 1, r.randint(1, 2))
+                out.append(f".s-#{{unique-id()}} {{ z: 1; {b} }}")
+                ids += 1 + k
+                self.hit("item:interpolated-selector-top-level")
+            elif c == "top-each":
+                n = r.randint(2, 3)
+                b, k = self.body(dict(sc, ctx="rule-in-top-level-loop"), 1, r.randint(1, 2))
+                out.append(f"@each ${self.fresh('t')} in {' '.join('xyz'[:n])} {{ .s-#{{unique-id()}} {{ z: 1; {b} }} }}")
+                ids += n * (1 + k)
+                self.hit("item:top-level-@each")
+            elif c == "import":
+                name = self.fresh("imp")
+                txt, k = self.items(sc, r.randint(1, 4), name, nested_files=False)     # same scope: @import shares the environment
+                self.files[f"_{name}.scss"] = txt
+                out.append(f"@import '{name}';")
+                ids += k
+                self.hit("item:@import")
+            else:
+                name = self.fresh("lc")
+                txt, k = self.items(self.scope(), r.randint(1, 4), name, nested_files=False)
+                self.files[f"_{name}.scss"] = txt
+                out.append(f"@include meta.load-css('{name}');" if r.random() < 0.5 else
+                           f"{self.fresh('lr')} {{ @include meta.load-css('{name}'); }}")
+                ids += k
+                self.hit("item:meta.load-css")
+            if pending and r.random() < 0.4:
+                out.append(f"{self.fresh(tag + 'p')} {{ " + " ".join(f"u: ${g};" for g in pending) + " }")
+                pending = []
+        if pending:
+            out.append(f"{self.fresh(tag + 'p')} {{ " + " ".join(f"u: ${g};" for g in pending) + " }")
+        return "\n".join(out), ids
+
+    def module(self, sc_entry, star):
+        """A module with its own scope; its CSS is emitted at the @use; its functions, mixins and one
+        variable are used from the entry file under `name.` (or bare with `as *`)."""
+        r = self.rng
+        name = self.fresh("mod")
+        sc = self.scope()
+        pre, ids, exported = "", 0, []
+        if r.random() < 0.35:
+            inner = self.fresh("fwd")
+            isc = self.scope()
+            itxt, k = self.items(isc, r.randint(1, 3), inner, nested_files=False)
+            self.files[f"_{inner}.scss"] = itxt
+            pre = f"@forward '{inner}';\n"
+            ids += k
+            exported.append(isc)
+            self.hit("module:@forward")
+        txt, k = self.items(sc, r.randint(1, 4), name, nested_files=False)
+        ids += k
+        v = None
+        if r.random() < 0.6:
+            v = self.fresh("mv")
+            txt = f"${v}: unique-id();\n" + txt
+            self.hit("module:top-level-variable-read-from-entry")
+        self.files[f"_{name}.scss"] = pre + txt
+        ns = "" if star else name + "."
+        for s in exported + [sc]:
+            for f in s["fns"]:
+                e = dict(f, kind="module-" + f["kind"], call=(lambda c, ns: (lambda _ns="": c(ns)))(f["call"], ns))
+                e.pop("callable", None)
+                sc_entry["fns"].append(e)
+            for m in s["mix"]:
+                sc_entry["mix"].append(dict(m, kind="module-" + m["kind"],
+                                            include=(lambda c, ns: (lambda _ns="": c(ns)))(m["include"], ns)))
+            for m in s["cmix"]:
+                sc_entry["cmix"].append(dict(m, kind="module-" + m["kind"], name=ns + m["name"]))
+        self.hit("module:@use" + (" as *" if star else ""))
+        after = ""
+        if v:
+            after = f"{self.fresh('mvr')} {{ u: {ns}${v}; }}"
+            ids += 1
+        return f"@use '{name}'" + (" as *;" if star else ";"), after, ids
+
+    def program(self):
+        r = self.rng
+        sc = self.scope()
+        head, after, ids = ['@use "sass:meta";'], [], 0
+        if r.random() < 0.3:
+            g = self.fresh("g")
+            head.insert(0, f"${g}: unique-id();")
+            after.append(f"{self.fresh('pre')} {{ u: ${g}; }}")
+            ids += 1
+            self.hit("item:top-level-variable-before-@use")
+        for _ in range(r.choice([0, 1, 1, 2])):
+            u, a, k = self.module(sc, r.random() < 0.3)
+            head.append(u)
+            if a:
+                after.append(a)
+            ids += k
+        txt, k = self.items(sc, r.randint(4, 9), "e")
+        ids += k
+        parts = head + after + [txt]
+        while ids < 8:
+            b, k = self.body(dict(sc, ctx="rule"), 0, 3)
+            parts.append(f"{self.fresh('pad')} {{ {b} }}")
+            ids += k
+        self.files["e.scss"] = "\n".join(parts)
+        return self.files, ids
+
+
+_U_LINE = re.compile(r"^\s*u: (.*);$")
+_PN_LINE = re.compile(r"^\s*pn-(.*): 1;$")
+_SEL = re.compile(r"\.s-([^\s,{]+)")
+
+
+def collect_ids(css):
+    """Every id the compilation printed.  Declaration values and property names are printed exactly
+    once each; a selector is printed again for every nested rule / bubbled @media, so the ids met in
+    selectors are taken once each (two selector draws that collide make the total fall short of the
+    statically known number of draws, which is checked separately)."""
+    out, sel, seen = [], [], set()
+    for line in css.split("\n"):
+        m = _U_LINE.match(line)
+        if m:
+            out += m.group(1).split()
+            continue
+        m = _PN_LINE.match(line)
+        if m:
+            out.append(m.group(1))
+            continue
+        s = line.rstrip()
+        if s.endswith("{") or s.endswith(","):
+            for x in _SEL.findall(s):
+                if x not in seen:
+                    seen.add(x)
+                    sel.append(x)
+    return out + sel
+
+
+# the seeded change C02-r3m2 in its smallest form + hand-written mixes; run first on every run
+UID_CORPUS = [
+    ("uid:top-level-then-function-twice",
+     {"e.scss": "$page: unique-id();\n@function uid() { @return unique-id(); }\na { u: $page; u: uid(); u: uid(); u: uid() uid(); u: unique-id(); "
+                "u: uid(); u: unique-id() uid(); }"}, 9),
+    ("uid:top-level-then-mixin-and-content-twice",
+     {"e.scss": "$page: unique-id();\n@mixin animated { $name: unique-id(); u: $name; }\n@mixin twice { @content; @content; }\n"
+                "ids { u: $page; @include animated; @include animated; @include twice { u: unique-id(); } u: unique-id(); "
+                "@include twice { @include animated; } pn-#{unique-id()}: 1; }"}, 9),
+    ("uid:import-and-use-after-top-level",
+     {"e.scss": "$g: unique-id();\n@use 'm';\n@import 'i';\na { u: $g m.f() m.f() m.$v; @include m.mx; @include m.mx; u: fi() fi(); "
+                "@each $x in a b c { u: fi(); .s-#{unique-id()} { z: 1; u: m.f(); } } }",
+      "_m.scss": "$v: unique-id();\n@function f() { @return unique-id(); }\n@mixin mx { u: unique-id() f(); }\nmr { u: f() unique-id(); }",
+      "_i.scss": "$h: unique-id();\n@function fi() { @return unique-id(); }\nir { u: $h fi() unique-id(); }"}, 24),
+]
+
+
+def _uid_python_verdict(ids):
+    """Steering only (shrinking): the verdict reported is always the Lean driver's."""
+    return len(set(ids)) == len(ids) and all(re.fullmatch(r"(-?[A-Za-z_\u0080-\U0010ffff]|--)[A-Za-z0-9_\u0080-\U0010ffff-]*", x) for x in ids)
+
+
+def _uid_shrink(pool, files, budget=80):
+    """Greedy line removal over every file while the compilation still succeeds and still prints
+    ids that are not valid/distinct (twice in a row: the draws are random)."""
+    def fails(fs):
+        rs = pool.map([compile_job(files=fs, entry="e.scss")] * 2, timeout=30)
+        for a in rs:
+            got = collect_ids(a.get("css", "")) if a.get("status") == "ok" else None
+            # a call of a function whose declaration was removed is printed as plain CSS `name()`: not a smaller witness
+            if not got or any("(" in x for x in got) or _uid_python_verdict(got):
+                return False
+        return True
+    cur = {k: v.split("\n") for k, v in files.items()}
+    progress = True
+    while progress and budget > 0:
+        progress = False
+        for k in sorted(cur, key=lambda k: -len(cur[k])):
+            i = 0
+            while i < len(cur[k]) and budget > 0:
+                cand = {kk: (vv[:i] + vv[i + 1:] if kk == k else vv) for kk, vv in cur.items()}
+                budget -= 1
+                if fails({kk: "\n".join(vv) for kk, vv in cand.items()}):
+                    cur, progress = cand, True
+                else:
+                    i += 1
+    return {k: "\n".join(v) for k, v in cur.items()}
+
+
+def unique_id_contexts(ck, pool, tier):
+    """(c) DIRECT, the clause “each unique-id() result within one compilation is a distinct valid
+    identifier”: generated programs draw ids at top level, in function / mixin / @content bodies invoked
+    repeatedly, in loops, in imported files, in modules (@use, @forward, meta.load-css), in interpolation —
+    declared and invoked in random order; all ids of ONE compilation are collected from the CSS and the
+    Lean driver evaluates `uniqueIdsOk` (the predicate of C02_uniqueIdCounter_ok / C02_uniqueId_valid_ident)
+    on them.  The number of ids printed must equal the number of draws known from the generator."""
+    rng = ck.rng
+    n = 400 if tier == "quick" else 6000
+    progs = [(name, files, ids, {"corpus": 1}) for name, files, ids in UID_CORPUS]
+    while len(progs) < n + len(UID_CORPUS):
+        g = UidGen(rng)
+        files, ids = g.program()
+        if ids > 160 or sum(len(v) for v in files.values()) > 12000:
+            continue
+        progs.append((f"gen{len(progs)}", files, ids, g.kinds))
+    answers = pool.map([compile_job(files=f, entry="e.scss") for _, f, _, _ in progs], timeout=60)
+    lines, metas = [], []
+    total = 0
+    for (name, files, ids, kinds), a in zip(progs, answers):
+        got = collect_ids(a.get("css", "")) if a.get("status") == "ok" else None
+        metas.append(got)
+        lines.append("intern uidwhy " + (",".join(hexs(x) for x in got) if got else "-"))
+    outs = driver(lines)
+    bad = []
+    for (name, files, ids, kinds), a, got, o in zip(progs, answers, metas, outs):
+        ck.count(("uid-contexts", json.dumps(files, sort_keys=True)), True)
+        for k, v in kinds.items():
+            ck.hist("uidctx:" + k, v)
+        ck.hist("uidctx:ids-per-program:" + ("8-15" if ids < 16 else "16-39" if ids < 40 else "40-79" if ids < 80 else "80-160"))
+        ck.hist("uidctx:files-per-program:" + str(min(len(files), 5)))
+        total += ids
+        # (b) tie of the draw model: every id grass printed has the shape `uniqueIdDraw` produces
+        shape_ok = o.split()[-1] == "1" if o.startswith("ok ") and len(o.split()) == 7 else None
+        ck.hist("uidctx:draw-shape-" + {True: "as-modelled", False: "differs", None: "n/a"}[shape_ok])
+        if shape_ok is False and got:
+            ck.cov["model_disagreements"] += 1
+            if len(ck.disagreements) < 3:
+                ck.disagreements.append({"kind": "unique-id-draw-shape", "source": files,
+                                         "model_observation(now)": "'id-' + 12 characters of rand's Alphanumeric charset (Grass.Interner.uniqueIdDraw)",
+                                         "impl_observation": got[:4]})
+        if got is not None and len(got) == ids and o.startswith("ok 1"):
+            continue
+        bad.append((sum(len(v) for v in files.values()), name, files, ids, a, got, o))
+    ck.cov["unique_id_context_programs"] = len(progs)
+    ck.cov["unique_id_context_ids"] = total
+    if len(progs) > 5:
+        name, files, ids, kinds = progs[5]
+        ck.sample({"unique-id contexts": files, "ids_expected": ids, "ids_printed": (metas[5] or [])[:6], "verdict": outs[5]})
+    bad.sort(key=lambda b: b[0])
+    for n_rep, (_, name, files, ids, a, got, o) in enumerate(bad):
+        if n_rep >= 5:
+            ck.cov["impl_property_failures"] += 1
+            continue
+        shrunk = None
+        if got is not None and not o.startswith("ok 1") and n_rep < 2:
+            shrunk = _uid_shrink(pool, files)
+            a2 = pool.map([compile_job(files=shrunk, entry="e.scss")], timeout=30)[0]
+            got2 = collect_ids(a2.get("css", "")) if a2.get("status") == "ok" else None
+            o2 = driver(["intern uidwhy " + (",".join(hexs(x) for x in got2) if got2 else "-")])[0]
+            if got2 and not o2.startswith("ok 1"):
+                files, got, o, a = shrunk, got2, o2, a2
+            else:
+                shrunk = None
+        what = ("compilation failed" if got is None else
+                "unique-id() results of ONE compilation are not all valid identifiers / pairwise distinct" if not o.startswith("ok 1") else
+                f"{len(got)} ids printed, {ids} drawn")
+        ck.impl_violation(None, {"what": what, "program": name, "source": files, "entry": "e.scss", "shrunk": shrunk is not None,
+                                 "ids_drawn_per_generator": None if shrunk is not None else ids, "ids_printed": got,
+                                 "lean_verdict(ok valid distinct first-invalid first-repeated)": o,
+                                 "status": a.get("status"), "error": a.get("display"),
+                                 "expected_by_property": "every unique-id() result of one compilation is a valid CSS identifier and no two are equal",
+                                 "kind_of_replay": "unique-id-contexts"}, tags=[])
+
+
+def _dec(text):
+    """Decimal text → (mantissa, scale), or None."""
+    m = re.fullmatch(r"(-?)(\d*)(?:\.(\d+))?", text.strip())
+    if not m or (not m.group(2) and not m.group(3)):
+        return None
+    frac = m.group(3) or ""
+    return int(m.group(1) + (m.group(2) or "0") + frac), len(frac)
+
+
+def random_tie(ck, pool, tier):
+    """random($limit) (builtin/functions/math.rs:89): the model's argument validation (`randomSpec`) against
+    grass, and P̂ `randomOk` — [0,1) without a limit, exactly 1 for limit 1, an integer in 1..limit otherwise,
+    the right error class for a non-number / non-integer / non-positive limit — evaluated by the Lean driver
+    on every value grass printed."""
+    rng = ck.rng
+    n_sheets = 40 if tier == "quick" else 600
+    cases = []                                       # (arg text, arg token, job index, slot | None)
+    jobs = []
+    for _ in range(n_sheets):
+        args = []
+        for _ in range(16):
+            c = rng.choice(["absent", "null", "one", "small", "small", "big", "unit", "two"])
+            a = {"absent": "", "null": "null", "one": rng.choice(["1", "1.0"]), "two": "2",
+                 "small": str(rng.randint(2, 12)), "big": str(rng.choice([100, 1000, 65536, 10 ** 6, 2 ** 31, 10 ** 9 + 7])),
+                 "unit": f"{rng.randint(2, 9)}{rng.choice(['px', 'em', '%'])}"}[c]
+            args.append(a)
+        for k, a in enumerate(args):
+            d = _dec(re.sub(r"[a-z%]+$", "", a)) if a not in ("", "null") else None
+            cases.append((a, "absent" if d is None else f"num:{d[0]}:{d[1]}", len(jobs), k))
+        jobs.append(compile_job("a{" + "".join(f"r{k}: random({a});" for k, a in enumerate(args)) + "}"))
+    bad_args = ["0", "-1", "-3", "-1000000", "1.5", "2.25", "-0.5", "0.999", "0.5", "1.001", "7.5px", "'a'", "red", "(1 2)", "true",
+                "a", "\"3\"", "(a: 1)", "0px", "-2em"]
+    for a in bad_args * (1 if tier == "quick" else 3):
+        d = _dec(re.sub(r"[a-z%]+$", "", a))
+        cases.append((a, f"num:{d[0]}:{d[1]}" if d else "nan", len(jobs), None))
+        jobs.append(compile_job(f"a{{r0: random({a});}}"))
+    answers = pool.map(jobs, timeout=30)
+    lines, keep = [], []
+    for a, tok, j, slot in cases:
+        ans = answers[j]
+        o = observe(ans)
+        if o[0] == "css":
+            m = re.search(rf"\br{slot or 0}: ([^;]*);", o[1])
+            d = _dec(m.group(1)) if m else None
+            obs = f"val:{d[0]}:{d[1]}" if d else None
+            shown = m.group(1) if m else o[1][:80]
+        elif o[0] == "err":
+            msg = o[1].split("\n")[0]
+            obs = "err:" + ("number" if "is not a number" in msg else "int" if "is not an int" in msg else
+                            "positive" if "Must be greater than 0" in msg else "other")
+            shown = msg
+        else:
+            obs, shown = None, str(o)[:80]
+        if obs is None:
+            ck.cov["unsupported_dropped"] += 1
+            continue
+        lines.append(f"intern random {tok} {obs}")
+        keep.append((a, tok, obs, shown))
+    outs = driver(lines)
+    for (a, tok, obs, shown), o in zip(keep, outs):
+        parts = o.split()
+        ck.count(("random", a, obs), True)
+        ck.hist("random:model-class:" + (parts[2] if len(parts) > 2 else "?"))
+        if o.startswith("ok 1"):
+            continue
+        if len(parts) < 3 or parts[0] != "ok":
+            ck.cov["unsupported_dropped"] += 1
+            continue
+        if obs.startswith("val:") and parts[2] in ("unit01", "exactly1", "oneTo"):
+            ck.impl_violation(None, {"what": "random() result outside the specified range", "source": f"a{{r0: random({a});}}", "argument": a,
+                                     "printed": shown, "model_class": parts[2], "lean_verdict": o, "kind_of_replay": "random",
+                                     "expected_by_property": "no limit: 0 <= r < 1; limit 1: 1; integer limit n >= 1: an integer 1..n"}, tags=[])
+        else:
+            ck.cov["model_disagreements"] += 1
+            if len(ck.disagreements) < 3:
+                ck.disagreements.append({"kind": "random-argument-validation", "source": f"a{{r0: random({a});}}",
+                                         "model_observation(now)": parts[2], "impl_observation": shown})
+
+
 def concurrency_stress(ck, R, pool, programs, refs, usable, tier):
     """Deeply recursive programs (call depth 150-200, dwelling at the bottom) compiled on 8 and 16
     threads at once: any process-wide resource shared between compilations shows here."""
@@ -565,15 +1155,42 @@ def cli_processes(ck, R, pool, programs, usable, tier):
             lib_jobs.append({"mode": "compile", "entry": os.path.join(d, p["entry"]), "fs": "std", "logger": "null",
                              "options": {"load_paths": lps, "load_paths_api": "singular"}})   # the binary uses `load_paths` (plural)
 
-        def one(a):
+        # process-level perturbation: every run gets another environment block (size, variables the std
+        # runtime / allocator / locale code may read) and another argv[0] (length), on top of the fresh
+        # hash seeds and address-space layout every new process has anyway
+        exes = []
+        for k, nm in enumerate(["g", "grass-run", "grass-" + "x" * 40, "grass-" + "y" * 180]):
+            lp = os.path.join(root, nm)
             try:
-                r = subprocess.run([vlib.GRASS_BIN] + a[1], stdout=subprocess.PIPE, stderr=subprocess.PIPE, timeout=120, cwd=root)
+                os.symlink(vlib.GRASS_BIN, lp)
+                exes.append(lp)
+            except OSError:
+                pass
+        exes = exes or [vlib.GRASS_BIN]
+
+        def perturbed_env(k):
+            env = dict(os.environ)
+            env["C02_PAD_" + "k" * (k % 9)] = "v" * ((k * 613) % 6000)
+            env["RUST_BACKTRACE"] = ["0", "1", "full"][k % 3]
+            env["LANG"] = env["LC_ALL"] = ["C", "en_US.UTF-8", "de_DE.UTF-8", "tr_TR.UTF-8"][k % 4]
+            env["TZ"] = ["UTC", "Asia/Tokyo", "America/New_York"][k % 3]
+            env["MALLOC_PERTURB_"] = str(k % 255)
+            env["NO_COLOR"] = str(k % 2)
+            if k % 5 == 0:
+                env.pop("HOME", None)
+            return env
+
+        def one(ka):
+            k, a = ka
+            try:
+                r = subprocess.run([exes[k % len(exes)]] + a[1], stdout=subprocess.PIPE, stderr=subprocess.PIPE, timeout=120, cwd=root,
+                                   env=perturbed_env(k))
                 return ("css", r.stdout.decode("utf-8", "replace")) if r.returncode == 0 else \
                     ("err", re.sub(r"\n$", "", r.stderr.decode("utf-8", "replace"), count=1))
             except subprocess.TimeoutExpired:
                 return ("timeout", "")
         with concurrent.futures.ThreadPoolExecutor(max_workers=16) as ex:
-            outs = list(ex.map(one, runs))
+            outs = list(ex.map(one, list(enumerate(runs))))
         libs = [observe(a) for a in pool.map(lib_jobs, timeout=30)]
         first = {}
         for (i, argv), o in zip(runs, outs):
@@ -583,6 +1200,7 @@ def cli_processes(ck, R, pool, programs, usable, tier):
             else:
                 R.compare(programs[i], {"mode": "cli-process", "argv": argv}, first[i], o)
         ck.cov["cli_fresh_processes"] = len(runs)
+        ck.hist("cli-process:perturbed-env-and-argv0", len(runs))
         R.flush()
     finally:
         shutil.rmtree(root, ignore_errors=True)
@@ -629,6 +1247,19 @@ def run(tier, seed):
         "observations: CSS text or Display of the error, byte for byte; programs calling random()/unique-id() are excluded "
         "from equality and checked for valid, pairwise distinct ids instead",
         "real scheduler / memory model / allocator state are outside the model (threads are started together behind a barrier)"]
+    # static tie: Grass/Generated/GlobalState.lean regenerated from the Rust source BEFORE the proof step
+    # (C02_survivors_modelled is `decide` over that table)
+    try:
+        gitems, gchanged, gnew, ggone = translate_iter_sites.generate_globals(REPO)
+        ck.cov["global_state"] = {"items": [f"{g['file']}:{g['line']} {g['name']} [{g['cls']}]" for g in gitems],
+                                  "table_changed": gchanged, "new": gnew, "gone": ggone}
+        for g in gitems:
+            ck.hist("global-state:" + g["cls"])
+        if gnew:
+            ck.notes.append(f"{len(gnew)} static/thread_local item(s) not in tools/data/c02_global_state.json: " + " | ".join(gnew[:10]))
+    except Exception as e:                                 # noqa: BLE001 — the proof step then runs on the committed table
+        ck.cov["global_state"] = {"error": repr(e)}
+        ck.cov["translator_ok"] = False
     ck.do_prove(cores=("intern",))
     if not ck.do_build_runner():
         ck.unproved("correspondence-broken", {"why": "runner does not build against /repo", "error": getattr(ck, "build_error", "")})
@@ -638,7 +1269,7 @@ def run(tier, seed):
     sites, new, gone, n_exp = translate_iter_sites.compare(REPO)
     ck.cov["iteration_sites"] = {"count": len(sites), "expected": n_exp, "new": new, "gone": gone,
                                  "iterating": [f"{s['file']}:{s['line']} [{s['fn']}] {s['text'][:100]}" for s in sites if s["kind"] == "iter"]}
-    ck.cov["translator_ok"] = new is not None
+    ck.cov["translator_ok"] = new is not None and "error" not in ck.cov.get("global_state", {})
     if new:
         ck.notes.append(f"{len(new)} container declaration/iteration site(s) not in tools/data/c02_iter_sites.json — look at them: " + " | ".join(new[:10]))
     if gone:
@@ -669,7 +1300,9 @@ def run(tier, seed):
     model_tie(ck, pool, tier)
     hashed_tie(ck, pool, tier)
     unique_ids(ck, pool, tier)
-    log(f"[C02] tie + unique-id done in {time.time() - t0:.1f}s")
+    unique_id_contexts(ck, pool, tier)
+    random_tie(ck, pool, tier)
+    log(f"[C02] tie + unique-id + random done in {time.time() - t0:.1f}s")
 
     # ---- (c) metamorphic run ------------------------------------------------------------------
     chosen, gens, n_corpus, skipped = load_programs(ck, tier)
@@ -733,8 +1366,11 @@ def run(tier, seed):
     log(f"[C02] seq histories done in {time.time() - t0:.1f}s ({len(jobs)} jobs)")
 
     # N threads started together
-    for n_threads in ([4] if tier == "quick" else [2, 4, 16]):
+    for n_threads in ([4, 8] if tier == "quick" else [2, 4, 8, 16]):
         order = list(usable)
+        if n_threads == 8:          # multi-file programs only: they all use the same file / module names (e.scss, m.scss, n.scss, _t.scss)
+            order = [i for i in usable if programs[i]["files"] and len(programs[i]["files"]) > 1]
+            ck.hist("par8:programs-sharing-file-names", len(order))
         rng.shuffle(order)
         per_list = 8
         jobs, meta = [], []
@@ -862,6 +1498,23 @@ def replay(path):
     if src is None:
         print(json.dumps(r, indent=1))
         return 0
+    if r.get("kind_of_replay") == "unique-id-contexts":
+        rc = 0
+        for attempt in range(3):                          # the draws are random: three compilations
+            a = pool.map([compile_job(files=src, entry=r.get("entry") or "e.scss")], timeout=60)[0]
+            got = collect_ids(a.get("css", "")) if a.get("status") == "ok" else None
+            o = driver(["intern uidwhy " + (",".join(hexs(x) for x in got) if got else "-")])[0]
+            print(f"compilation {attempt + 1}: status={a.get('status')} ids printed={len(got or [])} drawn={r.get('ids_drawn_per_generator')} "
+                  f"P̂ uniqueIdsOk (Lean driver: ok valid distinct first-invalid first-repeated): {o}")
+            if got is None or not o.startswith("ok 1") or (r.get("ids_drawn_per_generator") not in (None, len(got))):
+                rc = 1
+                print("  ids:", got)
+        return rc
+    if r.get("kind_of_replay") == "random":
+        print(json.dumps(r, indent=1))
+        a = pool.map([compile_job(src)], timeout=30)[0]
+        print("now:", observe(a))
+        return 1
     p = P(files=src, entry=r.get("entry"), options=r.get("options")) if isinstance(src, dict) else P(src=src, options=r.get("options"))
     ref = observe(pool.map([prog_job(p)], timeout=20)[0])
     print("program :", json.dumps(src)[:2000])
